@@ -357,6 +357,13 @@ def shrink(mod, scenario, target, budget_exec=400, budget_s=60):
     def fails(cand):
         if execs[0] >= budget_exec or time.time() - t0 > budget_s:
             return None
+        dom = getattr(mod, "in_domain", None)
+        if dom is not None:
+            try:
+                if not dom(cand):
+                    return None         # minimisation must not leave the domain the generator guarantees
+            except Exception:
+                return None
         execs[0] += 1
         try:
             out = execute_guarded(mod, cand)
